@@ -442,3 +442,31 @@ def norm_src(node, mapping):
             return ast.copy_location(ast.Name(id=mapping.get(n.id, n.id), ctx=n.ctx), n)
     import copy
     return src(R().visit(copy.deepcopy(node)))
+
+
+# ------------------------------------------------------------------ dropped Deferreds
+DEFERRED_API = ('queue_command', 'get_info', 'get_info_raw', 'get_info_single', 'get_info_incremental', 'get_conf', 'get_conf_single',
+                'get_conf_raw', 'set_conf', 'signal', 'add_event_listener', 'remove_event_listener', 'save', 'attach_protocol',
+                '_add_ephemeral_service', '_await_descriptor_upload', '_create_socks_endpoint', 'set_attacher', 'authenticate',
+                'protocolinfo', '_add_events', 'create', 'connect', 'when_built', 'when_connected', 'when_done', 'add_endpoint',
+                '_validate_ports', 'available_tcp_port', '_get_defaults', 'post_bootstrap')
+
+
+def dropped_deferreds(run, rid, units, what):
+    """In a generator-style coroutine a bare expression statement calling a Deferred-returning API
+    neither waits for the operation nor sees its failure.  (Zero instances on the pinned tree.)"""
+    n = 0
+    for u in units:
+        if not (u.is_inline_callbacks() or isinstance(u.node, ast.AsyncFunctionDef)):
+            continue
+        for st in walk_unit(u):
+            if isinstance(st, (ast.Yield, ast.Await)):
+                n += 1
+            if isinstance(st, ast.Expr) and isinstance(st.value, ast.Call) and callee_attr(st.value) in DEFERRED_API:
+                run.ob(rid, u, st, 'every asynchronous step of %s is awaited' % what, False, slot='dropped-deferred@%s:%s' % (u.short, callee_attr(st.value)),
+                       message='%s calls %s without yielding it: the coroutine goes on before the operation finished and its failure is lost' % (u.short, src(st.value)[:60]))
+            elif isinstance(st, ast.Expr) and isinstance(st.value, ast.Attribute) and st.value.attr in DEFERRED_API:
+                run.ob(rid, u, st, 'every asynchronous step of %s is awaited' % what, False, slot='dropped-deferred@%s:%s' % (u.short, st.value.attr),
+                       message='%s mentions %s without yielding it' % (u.short, src(st.value)[:60]))
+        run.ob(rid, u, u.node, 'no dropped Deferred in %s' % u.short, True)
+    return n
